@@ -13,25 +13,30 @@ META = {
     "harness_bins": ["c10"],
     "extract": "C10.v",
     "technique": "Coq proofs of panic-freedom for modelled cores in which every unwrap / expect / panic! / assert! / unchecked subtraction / panicking library call of the mirrored Rust is an explicit Panic outcome (number primops, index arithmetic of string and array primops, the lexer's mode automaton, span arithmetic of error conversion, name generation for type errors), tied to the code by differential runs of the extracted models; a generated ledger of every panic-capable site of the functions mirrored by any model; the whole pipeline is only SAMPLED: every stage of the public API under catch_unwind in a worker subprocess (signal = crash) on grammar-generated programs, mutations of the repository's files and random bytes, with every diagnostic label checked against its file",
-    "level_text": "proof (partial). PROVED in Coq for every input of the core (coq/Props/C10.v, 39 theorems, closed under the global context): "
+    "level_text": "proof (partial). PROVED in Coq for every input of the core (coq/Props/C10.v, 42 theorems, closed under the global context): "
                   "(a) number primops Div, Modulo, Pow (three-way split, for every float conversion and every powf), the f64-based unary ops, arctan2 and log never reach a panicking call of the arithmetic library: division by zero and zero to a negative power are structured errors; C10_pow_unguarded_panics_iff says exactly which inputs the guard of commit c4c4d42 excludes; "
                   "(b) index arithmetic: NickelString::substring (usize casts, checked subtraction), array/slice (the assertions of Slice::slice), array/at (get(n).unwrap()), array/generate never panic; the grapheme-index look-up of std.string.find/find_all as it was before commit c9daf53 is REFUTED (C10_find_all_index_panics_iff: exactly for a match starting at the end of the subject) and the current code is proved panic-free; "
                   "(c) the modal lexer's automaton (mode stack, brace counter, %-count arithmetic, one-token buffer) over arbitrary sequences of raw tokens: every input is consumed into tokens or structured lexical errors, none of the 11 panic sites of enter_*/leave_*/bufferize/... is reachable, the mode stack is never popped when empty or at the wrong mode (invariant: modes alternate); "
                   "(d) span arithmetic: every span built by ParseError::from_lexical / from_lalrpop, by the split of a candidate interpolation and by RawSpan::fuse lies within [0, len] with start <= end (sources < 4 GiB because of the u32 casts); the escape-sequence span of the code before 62096ac is REFUTED for char boundaries and the JSON/TOML error spans before fa9c5c0 are REFUTED for the range; the current conversions are proved (from_lexical_fixed; external_error_span: in range, on char boundaries, non-empty before EOF); "
                   "(e) NameReg::select_uniq (type error reporting) as it was before 26454e7 is REFUTED for termination (diverges when candidate and candidate1 are taken), the current loop terminates on every finite registry with a free name; pretty_print_cap before 03ad279 and the lone-carriage-return assertion before 4ff7631 are refuted with witnesses, the current code proved panic-free (these nine defects were found by this check and repaired in /repo: known_findings.txt); "
-                  "(f) merge_fields' value selection by priority never reaches its unreachable!() arm (the hand-written == and > of MergePriority agree and are antisymmetric); (g) the panic-site ledger: C10_sites_all_covered / C10_ledger_no_stale - each of the ~180 panic-capable sites (unwrap, expect, panic!, unreachable!, unimplemented!, assert!, debug_assert!, indexing, integer casts; for C10's own cores also unsigned subtractions and panicking library calls) in the functions mirrored by a model (vector, slice, resolve, version, lock, merge, contract_eq, nls world, eval stack, lazy thunks, lexer, parser error conversion, reporting, string primops, the modelled arms of operation.rs) is mapped to a theorem of coq/Crash (checked term), to a theorem of another property by name (existence checked), or to an explicit Unproved entry (a known-defect entry kind with a refuting lemma exists for reachable sites; none at present); the list is regenerated from /repo on every run and a site that appears, disappears or moves breaks the theorems. "
+                  "(f) merge_fields' value selection by priority never reaches its unreachable!() arm (the hand-written == and > of MergePriority agree and are antisymmetric); (g) importing a TOML document never reaches the expect of number_from_float: check_floats visits every float the conversion visits, at any nesting of tables, arrays of tables, arrays and inline tables (C10_no_panic_toml_import; C10_toml_check_needs_inline_arm shows a walk without the inline-table arm is unsound); (h) the panic-site ledger: C10_sites_all_covered / C10_ledger_no_stale - each of the ~180 panic-capable sites (unwrap, expect, panic!, unreachable!, unimplemented!, assert!, debug_assert!, indexing, integer casts; for C10's own cores also unsigned subtractions and panicking library calls) in the functions mirrored by a model (vector, slice, resolve, version, lock, merge, contract_eq, nls world, eval stack, lazy thunks, lexer, parser error conversion, reporting, string primops, the modelled arms of operation.rs) is mapped to a theorem of coq/Crash (checked term), to a theorem of another property by name (existence checked), or to an explicit Unproved entry (a known-defect entry kind with a refuting lemma exists for reachable sites; none at present); the list is regenerated from /repo on every run and a site that appears, disappears or moves breaks the theorems. "
                   "NOT PROVED: crash-freedom of the whole pipeline over all byte strings. It is validated by sampling only: quick tier about 5 000 inputs, thorough about 300 000 (grammar-generated well-typed / ill-typed / ill-formed programs, token- and byte-level mutations of about 900 repository files, constructs nested 200 deep on an 8 MiB stack, random bytes incl. invalid UTF-8), each through lexing, strict and tolerant parsing, typechecking (both modes), evaluation with a step budget, export to every format, query, record-spine evaluation, pretty-printing and rendering of every error, in a worker process whose death by signal is a finding. Absence of findings there is not the universal claim.",
-    "level_note": "Trusted: Coq kernel; extraction (ExtrOcamlBasic + ExtrOcamlNativeString); the hand-written models' reading of operation.rs, term/string.rs, lexer.rs, parser error.rs, reporting.rs (tied by differential runs: primop cores and the merge priority selection (quick: 1500 sampled cases; thorough: all 4808 combinations of the operand pools), lexer automaton 700/20000 sources step by step with raw tokens obtained independently from the logos sub-lexers, lexical-error and split spans against the parser's own errors); the syntactic site translator; the harness (catch_unwind + supervisor; gdb only to name the repeating frames of a stack overflow or a hang). "
+    "level_note": "Trusted: Coq kernel; extraction (ExtrOcamlBasic + ExtrOcamlNativeString); the hand-written models' reading of operation.rs, term/string.rs, lexer.rs, parser error.rs, reporting.rs (tied by differential runs: primop cores and the merge priority selection (quick: 1500 sampled cases; thorough: all 4808 combinations of the operand pools), lexer automaton 700/20000 sources step by step with raw tokens obtained independently from the logos sub-lexers, lexical-error and split spans against the parser's own errors, TOML import on 400/8000 generated toml_edit-shaped documents); the syntactic site translator; the harness (catch_unwind + supervisor; gdb only to name the repeating frames of a stack overflow or a hang). "
                   "Modelled, not verified: floats are abstract (theorems hold for every float function); logos regex matching, LALRPOP tables, malachite, serde/toml/saphyr, codespan rendering are not modelled; usize overflow of counters at 2^64 is out of reach of inputs that fit in memory and not modelled. "
                   "Delegated ledger entries rest on the other properties' theorems (C17, C18, C19, C20, C04, C16) by name. Not compiled into the harness: cargo features doc (markdown rendering; the evaluation part eval_record_spine is exercised), repl (query printing is reproduced by calling PrettyPrintCap as the CLI does), format, nix-experimental. "
                   "Resource exhaustion inside evaluation stages under the step budget (e.g. %pow% 2 1e12, array/generate 4e9) is counted in the evidence and not reported as a violation; in the parser and typechecker it is. The debug profile is deliberate (debug assertions and overflow checks are observed).",
 }
 
 EVAL_STAGES = ("eval", "export", "eval_full", "query", "query_field0", "query_field1", "query_field2", "doc_spine",
-               "data_export", "deserialize", "deserialize2")
+               "data_export", "data_import", "deserialize", "deserialize2")
 
 
 # ----------------------------------------------------------------------------- running the pipeline
+
+def c10bin():
+    """the harness binary (C10_BIN: development aid, a build against a scratch copy of the repository)"""
+    return os.environ.get("C10_BIN") or core.harness_bin("c10")
+
 
 def case_line(fmt, data):
     return fmt + "\t" + data.hex()
@@ -47,7 +52,7 @@ def show_input(data, limit=400):
 
 def run_pipeline(lines, timeout=40, shards=None):
     """Supervisor (bin c10) over the case lines, sharded; returns the result lines in order."""
-    exe = core.harness_bin("c10")
+    exe = c10bin()
     # interleave so that slow classes are spread over the shards
     shards = shards or core.NPROC
     order = sorted(range(len(lines)), key=lambda i: (i % shards, i))
@@ -112,7 +117,7 @@ def overflow_signature(line):
     try:
         rc, out = core.sh(["gdb", "-q", "-batch", "-ex", "set pagination off", "-ex", "set print thread-events off",
                            "-ex", "handle SIGSEGV stop nopass", "-ex", "run --worker < %s > /dev/null" % path,
-                           "-ex", "bt 80", core.harness_bin("c10")], timeout=300)
+                           "-ex", "bt 80", c10bin()], timeout=300)
         count = {}
         for m in re.finditer(r"^#\d+\s+(?:0x[0-9a-f]+ in )?(.+?) \(", out, flags=re.M):
             fn = m.group(1)
@@ -142,7 +147,7 @@ def hang_signature(line, wait=12):
     if ("hang", line) in _GDB_CACHE:
         return _GDB_CACHE[("hang", line)]
     sig = "unknown"
-    p = subprocess.Popen([core.harness_bin("c10"), "--worker"], stdin=subprocess.PIPE, stdout=subprocess.DEVNULL, stderr=subprocess.DEVNULL)
+    p = subprocess.Popen([c10bin(), "--worker"], stdin=subprocess.PIPE, stdout=subprocess.DEVNULL, stderr=subprocess.DEVNULL)
     try:
         p.stdin.write((line + "\n").encode())
         p.stdin.flush()
@@ -338,7 +343,7 @@ def std_tables():
     prims = sorted(set(re.findall(r'#\[token\("(%[a-z_/0-9]+%)"\)\]', lex)))
     mods = ["array", "string", "number", "record", "contract", "enum", "function", "test"]
     progs = ["\tstd.record.fields std.%s" % m for m in mods] + ["\tstd.record.fields std"]
-    rc, out, err = core.run_lines(core.harness_bin("c10"), ["eval"], progs, timeout=300)
+    rc, out, err = core.run_lines(c10bin(), ["eval"], progs, timeout=300)
     funs = []
     for m, l in zip(mods + [None], out):
         if not l.startswith("OK ["):
@@ -349,6 +354,29 @@ def std_tables():
                 funs.append("std.%s.%s" % (m, n) if m else "std.%s" % n)
     funs = [f for f in funs if f not in ("std.array", "std.string", "std.number", "std.record", "std.contract", "std.enum", "std.function", "std.test")]
     return prims, sorted(set(funs))
+
+
+def nickel_string(text):
+    out = ['"']
+    for c in text:
+        if c == "\\":
+            out.append("\\\\")
+        elif c == '"':
+            out.append('\\"')
+        elif c == "%":
+            out.append("\\%")
+        elif c == "\n":
+            out.append("\\n")
+        elif c == "\r":
+            out.append("\\r")
+        elif c == "\t":
+            out.append("\\t")
+        elif ord(c) < 0x20 or ord(c) == 0x7F:
+            out.append("\\x%02x" % ord(c))
+        else:
+            out.append(c)
+    out.append('"')
+    return "".join(out)
 
 
 def generate(ck, scale):
@@ -394,6 +422,21 @@ def generate(ck, scale):
         g = gen.G(rng.fork(), bad=rng.choice([0, 0, 5]))
         p, names = gen.mutate_tokens(rng, g.program(rng.range(1, 3)))
         cases.append(("ncl", p.encode(), "grammar:ill-formed", "G+" + "+".join(names)))
+
+    # (a') grammar-generated well-formed data documents, edge scalars at every structural position
+    for _ in range(n(450)):
+        fmt = rng.choice(["toml", "toml", "yaml", "yaml", "json"])
+        if fmt == "toml":
+            doc = gen.TomlDoc(rng.fork(), rng.choice([5, 20, 40])).document(rng.range(1, 4))[0]
+        elif fmt == "yaml":
+            doc = gen.YamlDoc(rng.fork()).document(rng.range(1, 4))
+        else:
+            doc = gen.json_doc(rng, rng.range(1, 4))
+        if rng.chance(1, 5):
+            # the same document imported from a Nickel program
+            cases.append(("ncl", ("std.deserialize '%s %s" % (fmt.capitalize(), nickel_string(doc))).encode(), "grammar:data:" + fmt + ":deserialize", "D"))
+        else:
+            cases.append((fmt, doc.encode(), "grammar:data:" + fmt, "D"))
 
     # (b) mutations of the corpus
     for _ in range(n(1100)):
@@ -625,7 +668,7 @@ def correspond_ops(ck, exe_model, n):
     else:
         cases = ops_cases(rng, n)
     rc1, mout, e1 = core.run_lines(exe_model, [], [c[0] if c[0] != "-" else "gen 0" for c in cases], timeout=1200)
-    rc2, rout, e2, = core.run_sharded(core.harness_bin("c10"), ["eval"], ["\t" + c[1] for c in cases], timeout=3600)
+    rc2, rout, e2, = core.run_sharded(c10bin(), ["eval"], ["\t" + c[1] for c in cases], timeout=3600)
     if rc1 or rc2:
         ck.obligation("correspondence-run:ops", "internal", False, "rc=%s/%s %s %s" % (rc1, rc2, e1, e2))
         return
@@ -675,6 +718,34 @@ def correspond_ops(ck, exe_model, n):
                 ck.obligation("correspondence:" + kind, "correspondence", False, "%s: model %s, impl %s" % (prog, m, r))
         elif m != rv:
             ck.obligation("correspondence:" + kind, "correspondence", False, "%s: model %s, impl %s (%s)" % (prog, m, rv, r))
+
+
+def correspond_toml(ck, exe_model, n):
+    """TOML import (check_floats + conversion): generated toml_edit-shaped documents, model vs the
+    import of the rendered text as a main file."""
+    rng = core.SplitMix64(ck.seed * 1000003 + 1012)
+    docs = []
+    for _ in range(n):
+        t = gen.TomlDoc(rng.fork(), rng.choice([0, 8, 25]))
+        docs.append(t.document(rng.range(1, 4)))
+    rc1, mout, e1 = core.run_lines(exe_model, [], ["toml " + m for _, m in docs], timeout=600)
+    rc2, rout, e2 = run_pipeline([case_line("toml,light", txt.encode()) for txt, _ in docs], timeout=60)
+    if rc1 or rc2:
+        ck.obligation("correspondence-run:toml", "internal", False, "rc=%s/%s %s %s" % (rc1, rc2, e1, e2[-500:]))
+        return
+    for (txt, tree), m, r in zip(docs, mout, rout):
+        ck.case(key="toml:" + txt, nontrivial=len(tree) > 6)
+        fs, stages, _ = findings_of(case_line("toml,light", txt.encode()), r)
+        st = stages.get("data_export", r[:40])
+        impl = "PANIC" if st == "PANIC" or not r.startswith("R ") else "VAL" if st.startswith("ok") else "ERR" if st.startswith("err:Parse") else st
+        ck.hist("toml_correspondence", "%s/%s" % (m.split(" ")[0], impl))
+        for key, text in fs:
+            # direct oracle: the import panicked / crashed / produced a label outside the file
+            ck.violation(skey(key), "%s [generated TOML document %r]" % (text[:220], txt[:160]),
+                         {"case": case_line("toml", txt.encode()), "format": "toml", "class": "grammar:data:toml", "origin": "correspond_toml",
+                          "input": txt, "model": m, "result": r[:2000]})
+        if m != impl and not fs:
+            ck.obligation("correspondence:toml-import", "correspondence", False, "model %s, impl %s (%s) on\n%s\ntree %s" % (m, impl, st, txt[:600], tree))
 
 
 ESC_VALID = {39, 34, 92, 37, 110, 114, 116}
@@ -772,7 +843,7 @@ def lexer_inputs(ck, n):
 
 def correspond_lexer(ck, exe_model, n):
     texts = [t for t in lexer_inputs(ck, n)]
-    rc, traces, err = core.run_sharded(core.harness_bin("c10"), ["lextrace"], [t.encode("utf-8", "replace").hex() for t in texts], timeout=3600)
+    rc, traces, err = core.run_sharded(c10bin(), ["lextrace"], [t.encode("utf-8", "replace").hex() for t in texts], timeout=3600)
     if rc:
         ck.obligation("correspondence-run:lextrace", "internal", False, "rc=%s %s" % (rc, err[-800:]))
         return
@@ -911,6 +982,7 @@ def run(ck):
             n_ops, n_lex = int((n_ops or 5000) * scale), int(n_lex * scale)
         correspond_ops(ck, exe_model, n_ops)
         correspond_lexer(ck, exe_model, n_lex)
+        correspond_toml(ck, exe_model, int((400 if quick else 8000) * min(scale, 1)) if scale < 1 else (400 if quick else 8000))
     cor = corpus_cases()
     focus = 2 if (appeared or gone) else 1      # a ledger mismatch widens the search
     cases = cor + generate(ck, scale * focus)
@@ -936,6 +1008,7 @@ def run(ck):
         "pipeline inputs (one SplitMix64 stream from VERIF_SEED): corpus/C10 witnesses; the repository's own .ncl/.json/.yaml/.toml files and the "
         "```nickel blocks of doc/**/*.md unmodified (quick: a sample); (a) grammar-generated Nickel programs: well-typed (typed generator over "
         "numbers, strings with interpolation and multiline strings, booleans, enums, arrays, records with metadata, let/fun/if/match, annotations, std calls), "
+        "grammar-generated well-formed JSON / YAML / TOML documents with edge scalars (inf, nan, huge and odd numbers, dates, tags, anchors and aliases, merge keys, non-ASCII and empty keys) at every structural position (tables, dotted keys, inline tables, arrays, arrays of tables, inline tables inside arrays ...), as main file, through a real file import and through std.deserialize; "
         "ill-typed (same skeleton with sub-terms of another type, wrong annotations, every %primop% of the lexer's token table and every function of "
         "std.{array,string,number,record,contract,enum,function} applied to a pool of edge values), ill-formed (token-level damage of generated programs); "
         "(b) token-level mutations (delete/duplicate/swap/replace/insert tokens, unbalance brackets, change string delimiters, insert %{ and }, edge number "
